@@ -4,7 +4,7 @@
 #   given checks (default: all claimed) at the given tier (default quick), writes <dir>/result.json,
 #   and always restores /repo afterwards.
 set -u
-dir="$1"; tier="${2:-quick}"; shift; shift 2>/dev/null
+dir="$(realpath "$1")"; tier="${2:-quick}"; shift; shift 2>/dev/null
 cd /verif
 if [ -n "$(git -C /repo status --porcelain --untracked-files=no)" ]; then echo "/repo is not clean"; exit 2; fi
 git -C /repo apply "$dir/patch.diff" || { echo "patch does not apply"; exit 2; }
